@@ -257,6 +257,9 @@ func protect(f func()) (v *Violation) {
 				v = vv
 				return
 			}
+			if isRapidInternal(r) {
+				panic(r)
+			}
 			v = &Violation{Oracle: "panic", Msg: fmt.Sprintf("panic: %v\n%s", r, debug.Stack())}
 		}
 	}()
@@ -275,4 +278,10 @@ func mustJSON(v any) []byte {
 func sha8(b []byte) []byte {
 	h := sha256.Sum256(b)
 	return h[:8]
+}
+
+// isRapidInternal reports panics rapid uses for its own control flow (invalid data, stop test).
+func isRapidInternal(r any) bool {
+	s := fmt.Sprintf("%T", r)
+	return s == "rapid.invalidData" || s == "rapid.stopTest" || s == "rapid.testError"
 }
